@@ -121,3 +121,123 @@ Proof.
     + apply F2R_lt_0. simpl. lia.
     + apply F2R_gt_0. simpl. lia.
 Qed.
+
+(** ** magnitude bounds that rule out overflow *)
+Definition bnd (k : Z) (x : pfloat) : Prop :=
+  is_finite (Prim2B x) = true /\ Rabs (B2R (Prim2B x)) <= bpow radix2 k.
+
+Notation fexp64 := (SpecFloat.fexp prec emax).
+
+Lemma format_bpow k : (-1074 <= k)%Z -> generic_format radix2 fexp64 (bpow radix2 k).
+Proof.
+  intros Hk. apply generic_format_bpow. unfold SpecFloat.fexp, SpecFloat.emin, prec, emax. lia.
+Qed.
+
+Lemma round_bnd k r : (-1074 <= k)%Z -> Rabs r <= bpow radix2 k ->
+  Rabs (round radix2 fexp64 (round_mode mode_NE) r) <= bpow radix2 k.
+Proof.
+  intros Hk Hr. apply abs_round_le_generic; auto with typeclass_instances.
+  - apply fexp_correct. reflexivity.
+  - apply format_bpow; exact Hk.
+Qed.
+
+Lemma bnd_mono i j x : (i <= j)%Z -> bnd i x -> bnd j x.
+Proof. intros Hij [F H]. split; [exact F|]. eapply Rle_trans; [exact H | apply bpow_le; exact Hij]. Qed.
+
+Lemma bnd_finite k x : bnd k x -> finite x.
+Proof. intros [F _]. exact F. Qed.
+
+Lemma bnd_mul i j x y : (0 <= i)%Z -> (0 <= j)%Z -> (i + j < 1024)%Z ->
+  bnd i x -> bnd j y -> bnd (i + j) (x * y).
+Proof.
+  intros Hi Hj Hij [Fx Hx] [Fy Hy]. unfold bnd. rewrite mul_equiv.
+  pose proof (Bmult_correct _ _ _ _ mode_NE (Prim2B x) (Prim2B y)) as H.
+  assert (Hr : Rabs (B2R (Prim2B x) * B2R (Prim2B y)) <= bpow radix2 (i + j)).
+  { rewrite Rabs_mult, bpow_plus. apply Rmult_le_compat; auto using Rabs_pos. }
+  pose proof (round_bnd (i + j) _ ltac:(lia) Hr) as Hb.
+  rewrite Rlt_bool_true in H.
+  - destruct H as [HR [HF _]]. rewrite HR, HF, Fx, Fy. split; [reflexivity | exact Hb].
+  - eapply Rle_lt_trans; [exact Hb | apply bpow_lt; unfold emax; lia].
+Qed.
+
+Lemma bnd_add i x y : (0 <= i)%Z -> (i + 1 < 1024)%Z ->
+  bnd i x -> bnd i y -> bnd (i + 1) (x + y).
+Proof.
+  intros Hi Hij [Fx Hx] [Fy Hy]. unfold bnd. rewrite add_equiv.
+  pose proof (Bplus_correct _ _ _ _ mode_NE _ _ Fx Fy) as H.
+  assert (Hr : Rabs (B2R (Prim2B x) + B2R (Prim2B y)) <= bpow radix2 (i + 1)).
+  { rewrite bpow_plus. simpl (bpow radix2 1). eapply Rle_trans; [apply Rabs_triang|]. lra. }
+  pose proof (round_bnd (i + 1) _ ltac:(lia) Hr) as Hb.
+  rewrite Rlt_bool_true in H.
+  - destruct H as [HR [HF _]]. rewrite HR, HF. split; [reflexivity | exact Hb].
+  - eapply Rle_lt_trans; [exact Hb | apply bpow_lt; unfold emax; lia].
+Qed.
+
+Lemma bnd_sub i x y : (0 <= i)%Z -> (i + 1 < 1024)%Z ->
+  bnd i x -> bnd i y -> bnd (i + 1) (x - y).
+Proof.
+  intros Hi Hij [Fx Hx] [Fy Hy]. unfold bnd. rewrite sub_equiv.
+  pose proof (Bminus_correct _ _ _ _ mode_NE _ _ Fx Fy) as H.
+  assert (Hr : Rabs (B2R (Prim2B x) - B2R (Prim2B y)) <= bpow radix2 (i + 1)).
+  { rewrite bpow_plus. simpl (bpow radix2 1). unfold Rminus.
+    eapply Rle_trans; [apply Rabs_triang|]. rewrite Rabs_Ropp. lra. }
+  pose proof (round_bnd (i + 1) _ ltac:(lia) Hr) as Hb.
+  rewrite Rlt_bool_true in H.
+  - destruct H as [HR [HF _]]. rewrite HR, HF. split; [reflexivity | exact Hb].
+  - eapply Rle_lt_trans; [exact Hb | apply bpow_lt; unfold emax; lia].
+Qed.
+
+Lemma bnd_zero k : bnd k 0%float.
+Proof. split; [reflexivity|]. simpl. rewrite Rabs_R0. apply bpow_ge_0. Qed.
+
+Lemma bnd_one : bnd 0 1%float.
+Proof.
+  split; [reflexivity|]. change 1%float with one. rewrite one_equiv, Prim2B_B2Prim.
+  simpl. unfold F2R, Defs.F2R. simpl. rewrite Rabs_pos_eq; lra.
+Qed.
+
+Lemma B2R_one : B2R (Prim2B 1%float) = 1.
+Proof.
+  change 1%float with one. rewrite one_equiv, Prim2B_B2Prim. simpl. unfold F2R, Defs.F2R. simpl. lra.
+Qed.
+
+(** 1/sqrt(n) for a finite, sign-clear, non-zero n: at most 2^537, so no overflow *)
+Lemma bnd_inv_sqrt n : finite n -> sp n -> PrimFloat.eqb n 0%float = false ->
+  bnd 537 (1 / PrimFloat.sqrt n).
+Proof.
+  unfold finite, sp. rewrite eqb_equiv. change (Prim2B 0%float) with (B754_zero false : bfloat).
+  intros Fn Sn Zn.
+  (* n is a positive finite number, hence at least the smallest subnormal *)
+  assert (Hpos : 0 < B2R (Prim2B n)).
+  { destruct (Prim2B n) as [s|s| |s m e He]; try discriminate.
+    simpl in Sn. subst s. simpl. apply F2R_gt_0. simpl. lia. }
+  assert (Hn : bpow radix2 (-1074) <= B2R (Prim2B n)).
+  { apply (generic_format_ge_bpow radix2 fexp64); [|exact Hpos | apply generic_format_B2R].
+    intros e. unfold SpecFloat.fexp, SpecFloat.emin, prec, emax. lia. }
+  (* its square root is finite and at least 2^-537 *)
+  destruct (Bsqrt_correct _ _ _ _ mode_NE (Prim2B n)) as [HR [HF _]].
+  assert (HFs : is_finite (Bsqrt mode_NE (Prim2B n)) = true).
+  { rewrite HF. destruct (Prim2B n) as [s|s| |s m e He]; try discriminate; try reflexivity.
+    simpl in Sn. subst s. reflexivity. }
+  assert (Hs : bpow radix2 (-537) <= B2R (Bsqrt mode_NE (Prim2B n))).
+  { rewrite HR. apply round_ge_generic; auto with typeclass_instances.
+    - apply fexp_correct. reflexivity.
+    - apply format_bpow. lia.
+    - change (-537)%Z with ((-1074) / 2)%Z. eapply Rle_trans; [apply sqrt_bpow_ge|].
+      apply sqrt_le_1_alt. exact Hn. }
+  assert (Hs0 : 0 < bpow radix2 (-537)) by apply bpow_gt_0.
+  unfold bnd. rewrite div_equiv, sqrt_equiv.
+  assert (Zy : B2R (Bsqrt mode_NE (Prim2B n)) <> 0) by lra.
+  pose proof (Bdiv_correct _ _ _ _ mode_NE (Prim2B 1%float) _ Zy) as H.
+  rewrite B2R_one in H.
+  assert (Hr : Rabs (1 / B2R (Bsqrt mode_NE (Prim2B n))) <= bpow radix2 537).
+  { rewrite Rabs_pos_eq.
+    - apply Rle_trans with (1 / bpow radix2 (-537)).
+      + unfold Rdiv. rewrite !Rmult_1_l. apply Rinv_le; lra.
+      + unfold Rdiv. rewrite Rmult_1_l, <- bpow_opp. simpl Z.opp. lra.
+    - apply Rlt_le. apply Rdiv_lt_0_compat; lra. }
+  pose proof (round_bnd 537 _ ltac:(lia) Hr) as Hb.
+  rewrite Rlt_bool_true in H.
+  - destruct H as [HR' [HF' _]]. rewrite HR', HF'. split; [reflexivity | exact Hb].
+  - eapply Rle_lt_trans; [exact Hb | apply bpow_lt; unfold emax; lia].
+Qed.
